@@ -216,6 +216,157 @@ def gen_gate(ctx, n):
     return cases
 
 
+# ---------------------------------------------------------------------------------------------------------------------------------
+# skip-gate: step-level tie of the real concurrent_skip_list (unique keys, scripted node heights) with SkipModel
+def gen_skipgate(ctx, n):
+    rng = ctx.rng
+    cases = []
+    for i in range(n):
+        space = rng.choice([4, 8, 30])
+        def hgt():
+            r = rng.random()
+            return 1 if r < 0.45 else 2 if r < 0.7 else 3 if r < 0.85 else rng.choice([4, 5, 6, 12, 31, 32])
+        nodes = [(0, 32)]
+        prekeys = rng.sample(range(0, space * 10, 10), rng.randint(0, min(space, 7)))
+        pre = []
+        for k in prekeys:
+            pre.append(len(nodes)); nodes.append((k, hgt()))
+        T = rng.choice([2, 2, 3])
+        hot = rng.randrange(0, space * 10, 10) + rng.choice([0, 5])
+        threads = []
+        for t in range(T):
+            ops = []
+            for _ in range(rng.randint(1, 3)):
+                k = hot if rng.random() < 0.5 else rng.randrange(0, space * 10, 5)
+                if rng.random() < 0.72:
+                    ops += [1, k, len(nodes)]; nodes.append((k, hgt()))
+                else:
+                    ops += [2, k, 0]
+            threads.append(ops)
+        sched = []
+        style = rng.random()
+        while len(sched) < 400:
+            t = rng.randrange(T)
+            sched += [t] * (1 if style < 0.4 else rng.choice([1, 1, 2, 3, 8, 20]))
+        c = [len(nodes)] + [x for kh in nodes for x in kh] + [len(pre)] + pre + [T]
+        for ops in threads:
+            c += [len(ops) // 3] + ops
+        cases.append(c + [-1] + sched)
+    return cases
+
+
+def skip_parse_case(c):
+    nn = c[0]; nodes = [(c[1 + 2 * i], c[2 + 2 * i]) for i in range(nn)]
+    p = 1 + 2 * nn
+    npre = c[p]; pre = c[p + 1:p + 1 + npre]; p += 1 + npre
+    T = c[p]; p += 1
+    threads = []
+    for t in range(T):
+        n = c[p]; p += 1
+        threads.append([tuple(c[p + 3 * j:p + 3 * j + 3]) for j in range(n)]); p += 3 * n
+    return nodes, pre, threads, p       # c[p] == -1
+
+
+def skip_desc(c):
+    nodes, pre, threads, p = skip_parse_case(c)
+    return "concurrent_skip_list<long> (unique keys; node heights scripted), pre-inserted %s, threads %s, schedule %s..." % (
+        [(nodes[i][0], "h=%d" % nodes[i][1]) for i in pre],
+        [[("insert" if o == 1 else "find", k) + (("h=%d" % nodes[x][1],) if o == 1 else ()) for (o, k, x) in th] for th in threads], c[p + 1:p + 40])
+
+
+def skip_split(toks):
+    """-> events (list of 6-tuples), quiescent, maxh, per-thread results, chains {lev: ids}"""
+    i = toks.index(-7)
+    ev = [tuple(toks[j:j + 6]) for j in range(0, i, 6)]
+    quiescent, maxh = toks[i + 1], toks[i + 2]
+    rest = toks[i + 3:]
+    res, chains = [], {}
+    cur = None
+    for x in rest:
+        if x == -8:
+            cur = []; res.append(cur)
+        elif x == -9:
+            cur = []; chains[len(chains)] = cur
+        else:
+            cur.append(x)
+    chains = {ch[0]: ch[1:] for ch in chains.values()}
+    return ev, quiescent, maxh, res, chains
+
+
+def skipgate_oracle(c, toks):
+    """the property on the implementation's own output"""
+    nodes, pre, threads, p = skip_parse_case(c)
+    ev, quiescent, maxh, res, chains = skip_split(toks)
+    l0 = chains.get(0, [])
+    keys0 = [nodes[i][0] if 0 <= i < len(nodes) else None for i in l0]
+    if any(k is None for k in keys0) or any(keys0[i] >= keys0[i + 1] for i in range(len(keys0) - 1)):
+        return ("skip-list-order-or-duplicate", "level-0 chain holds keys %s (not strictly increasing: unsorted, or two equivalent keys in a unique container)" % keys0)
+    prekeys = set(nodes[i][0] for i in pre)
+    succ = {}
+    tried = set()
+    for th in res:
+        for j in range(0, len(th), 3):
+            if th[j] == 1:
+                tried.add(th[j + 1]); succ[th[j + 1]] = succ.get(th[j + 1], 0) + th[j + 2]
+    for k in tried:
+        want = 0 if k in prekeys else 1
+        if succ.get(k, 0) != want:
+            return ("skip-list-winners", "key %d: %d inserts reported success (expected %d)" % (k, succ.get(k, 0), want))
+    if set(keys0) != prekeys | tried:
+        return ("skip-list-contents", "final keys %s != pre-inserted + inserted %s" % (keys0, sorted(prekeys | tried)))
+    for lev, ch in chains.items():
+        want = [i for i in l0 if nodes[i][1] > lev]
+        if ch != want:
+            return ("skip-list-level-chain", "level %d chain = nodes %s, expected the nodes higher than %d in level-0 order: %s" % (lev, ch, lev, want))
+    # finds: a find that started after the key's insertion completed (or of a pre-inserted key) must succeed; a find of a never-inserted key must fail
+    for th in res:
+        for j in range(0, len(th), 3):
+            if th[j] == 2:
+                k, r = th[j + 1], th[j + 2]
+                if k in prekeys and r != 1:
+                    return ("skip-list-find-misses", "find(%d) of a pre-inserted key failed" % k)
+                if k not in prekeys and k not in tried and r != 0:
+                    return ("skip-list-find-phantom", "find(%d) succeeded for a key nobody inserted" % k)
+    return None
+
+
+def run_skipgate(ctx, exe, cases, replaying=False):
+    rc, lines, err = ctx.run_driver(exe, ["skipgate"], cases, timeout=900)
+    inputs, metas = [], []
+    nbad = 0
+    for c, ln in zip(cases, lines):
+        toks = ln.split()
+        if not toks or toks[-1] == "HANG" or toks[0].startswith("CRASH"):
+            nbad += 1
+            ctx.add(Finding("violation", "skip-list-hang", skip_desc(c) + ": an operation never returns", {"tie": "skip-gate", "case": c}))
+            continue
+        toks = [int(t) for t in toks]
+        nodes, pre, threads, p = skip_parse_case(c)
+        ev = skip_split(toks)[0]
+        inputs.append(c[:p + 1] + [e[0] for e in ev])
+        metas.append((c, toks))
+    if len(lines) < len(cases):
+        nbad += 1
+        ctx.add(Finding("violation", "skip-list-crash", skip_desc(cases[len(lines)]) + ": the driver died (rc=%s)" % rc, {"tie": "skip-gate", "case": cases[len(lines)]}))
+    for (c, toks), m in zip(metas, ctx.modelrun("skip", inputs)):
+        nodes, pre, threads, p = skip_parse_case(c)
+        ctx.count(("skip-gate", tuple(c)), True, "skip-gate T=%d pre=%d" % (len(threads), len(pre)))
+        v = skipgate_oracle(c, toks)
+        if v:
+            nbad += 1
+            ctx.add(Finding("violation", v[0], "%s: %s" % (skip_desc(c), v[1]), {"tie": "skip-gate", "case": c}))
+        elif m != toks:
+            nbad += 1
+            k = next((i for i in range(min(len(m), len(toks))) if m[i] != toks[i]), min(len(m), len(toks)))
+            if nbad <= 3:
+                ctx.add(Finding("broken", "broken:tie:skip-gate", "%s: the access sequence / results / final chains of the implementation differ from SkipModel at token %d (access #%d): implementation ...%s, model ...%s" % (
+                    skip_desc(c), k, k // 6, toks[max(0, k - 12):k + 7], m[max(0, k - 12):k + 7]), {"tie": "skip-gate", "case": c}))
+        else:
+            ctx.traces_validated += 1
+    ctx.ties.append({"name": "skip-gate (every access to my_max_height / next(level) of the real skip list, in execution order, equals SkipModel's step sequence; results and final chains equal)",
+                     "cases": len(cases), "disagreements": nbad})
+
+
 def run(ctx):
     lib, err = ctx.build_lib("tbb")
     if err:
@@ -236,6 +387,10 @@ def run(ctx):
         sk.append([multi] + [rng.randrange(space) for _ in range(n)])
     ctx.rules.append("skip-structure (oracle only): after sequential inserts the real skip list's level-0 chain is sorted/unique/complete and every level-i chain is exactly the nodes higher than i")
     oracle_tie(ctx, "skip-structure", exe, ["skip"], sk, skip_oracle, bucket=lambda c: "skip multi=%d" % c[0], describe=lambda c: "%d inserts" % (len(c) - 1))
+    ctx.rules.append("skip-gate: the real concurrent_skip_list (unique keys) with scripted node heights and numbered nodes, 2-3 logical threads x 1-3 insert/find over 0-7 pre-inserted nodes, "
+                     "seeded interleavings of every atomic access: the sequence of accesses to my_max_height and to every next(level) pointer (kind, observed value, written value, CAS outcome), "
+                     "the results and the final chain of every level equal SkipModel's run under the same order of threads")
+    run_skipgate(ctx, exe, gen_skipgate(ctx, ctx.scale(400, 12000)))
     ctx.rules.append("assoc-gate (oracle only): 2-3 logical threads x 1-5 insert/count/traverse on the four real containers under seeded interleavings of every atomic access; "
                      "oracle = one winner per key, contents = union of successful inserts, count/traversal bounded by completed-before and started-before inserts, ordered iteration")
     oracle_tie(ctx, "assoc-gate", exe, ["gate"], gen_gate(ctx, ctx.scale(1500, 40000)), gate_oracle, describe=gdescribe,
@@ -261,6 +416,8 @@ def replay(ctx, rep):
     exe, err = ctx.build_driver("drv_assoc", libs=[lib], extra=["-include", PRELUDE])
     if rep.get("tie") == "assoc-gate":
         oracle_tie(ctx, "assoc-gate", exe, ["gate"], [rep["case"]], gate_oracle, describe=gdescribe)
+    elif rep.get("tie") == "skip-gate":
+        run_skipgate(ctx, exe, [rep["case"]], replaying=True)
     elif rep.get("tie") == "sol-seq":
         diff_tie(ctx, "sol-seq", exe, ["seq"], "sol", [rep["case"]], oracle=seq_oracle, describe=sdescribe)
     else:
